@@ -24,6 +24,10 @@ def cases(ctx):
             continue
         num = "float" if i % 5 == 4 else ("int" if den == 1 and i % 5 == 1 else "frac")
         yield {"env": env, "num": num}
+    for i in range(ctx.n(5, 120)):
+        env = OC.component_env(rng, R=rng.choice([8, 12])) if i % 2 else OC.nested_env(rng)
+        if env is not None:
+            yield {"env": env, "num": "frac"}
     sq = ("S", G.verts_to_jordan(G.ccw([(F(0), F(0)), (F(3), F(0)), (F(3), F(3)), (F(0), F(3))])))
     yield {"env": [sq, ("E",)], "num": "frac"}
     yield {"env": [("W",), sq], "num": "frac"}
